@@ -3,3 +3,4 @@ import Proofs.SemLemmas
 import Proofs.EqHash
 import Proofs.SetBuild
 import Proofs.NumLemmas
+import Proofs.EParseTotal
